@@ -75,6 +75,21 @@ func plausiblePayload(kind string, a *app.ShutterApp, u *smchain.Universe, self 
 	}
 }
 
+// nextOfKind returns the payload of the first transaction of the given kind at or after (p,q).
+func nextOfKind(blocks [][]smchain.Tx, p, q int, kind string) *shmsg.Message {
+	for b := p; b < len(blocks) && b < p+12; b++ {
+		for i, tx := range blocks[b] {
+			if b == p && i < q {
+				continue
+			}
+			if tx.Signer >= 0 && tx.Msg != nil && tx.Chain == smchain.ChainID && smchain.Kind(tx) == kind {
+				return tx.Msg
+			}
+		}
+	}
+	return nil
+}
+
 type injection struct {
 	class   string
 	tx      smchain.Tx
@@ -211,7 +226,15 @@ func twinCase(env *vlib.Env, h int, rep *vlib.Reporter) {
 		o := outs[r.Intn(len(outs))]
 		in.class = "outsider:" + kind
 		in.skipKey = o
-		in.tx = hist.U.SignTx(o, 79_000_000+uint64(h), smchain.ChainID, plausiblePayload(kind, sh.App, hist.U, o, r), "outsider-"+kind)
+		payload := plausiblePayload(kind, sh.App, hist.U, o, r)
+		if r.Chance(2, 3) {
+			// prefer the payload of the next transaction of that kind the members themselves will
+			// send (e.g. a vote for the very config that is being voted on)
+			if m := nextOfKind(hist.Blocks, p, q, kind); m != nil {
+				payload = m
+			}
+		}
+		in.tx = hist.U.SignTx(o, 79_000_000+uint64(h), smchain.ChainID, payload, "outsider-"+kind)
 		// the mempool check must refuse it
 		if c := sh.CheckTx(in.tx); c.Code == 0 {
 			rep.Violationf("code0:CheckTx:outsider", map[string]any{"tx": in.tx.Label, "history": h}, "outsider transaction %s passed CheckTx", in.tx.Label)
@@ -281,6 +304,8 @@ func scenarioCase(env *vlib.Env, h int, rep *vlib.Reporter) {
 		payload = shmsg.NewBlockSeen(a2 + uint64(r.Intn(1000)))
 	case "dkgresult":
 		payload = shmsg.NewDKGResult(1, false) // the eon that C1 will start
+	case "batchconfig":
+		payload = c1 // the very config the members are about to vote on
 	default:
 		payload = plausiblePayload(kind, sh.App, u, O, r)
 	}
